@@ -5,6 +5,13 @@
    Properties/C13.v say that every well-formed composition terminates and releases everything for
    every history, cut, ending and peer - so "model agrees" coincides with "the oracle accepts" as
    long as the composition the harness ran is one the model covers (a well-formed [comp]).
+   Busy store ([store] = 1: another writer holds the SQLite database during the session, the bulk
+   inserter is stalled and the hand-over queue fills up): the model expresses this - [ch_sql_events]
+   has no receiving process in Session.v, i.e. the hand-over [ASend ch_sql_events] of [simple_code]
+   pc 4 is never guaranteed to go through and the theorems hold all the same because the select has
+   the [ADone] alternative - so the prediction is again "terminates and releases everything"; such
+   a case is covered when the composition contains the SQLite handler.  What a busy store excuses
+   is only that further input is not accepted (back-pressure): [fed] is not demanded.
    WebSocket cases: the model's prediction is the guard generated from relay.go: the write deadline
    exists iff g_write_deadline_guard holds; the oracle demands the drop whenever a send timeout is
    configured. *)
@@ -14,7 +21,7 @@ Import ListNotations.
 Open Scope Z_scope.
 
 Inductive case :=
-| CSess (cid mid hlen : nat) (ending peer : nat) (settle : bool)
+| CSess (cid mid hlen : nat) (ending peer : nat) (settle : bool) (store : nat)
         (fed returned : bool) (leak reg : nat) (gconn greq : Z) (panicked : bool)
 | CWs (st_ms ping_ms : Z) (cancelled closed : bool) (panicked : bool).
 
@@ -26,6 +33,16 @@ Fixpoint wf_compb (c : comp) : bool :=
   end
 with wf_compsb (cs : comps) : bool :=
   match cs with CNil => true | CCons c r => wf_compb c && wf_compsb r end.
+
+Fixpoint has_sqlite (c : comp) : bool :=
+  match c with
+  | CSimple SSqlite => true
+  | CSimple _ | CRouter _ => false
+  | CMw c' => has_sqlite c'
+  | CMerge cs => has_sqlites cs
+  end
+with has_sqlites (cs : comps) : bool :=
+  match cs with CNil => false | CCons c r => has_sqlite c || has_sqlites r end.
 
 Fixpoint cl (l : list comp) : comps := match l with [] => CNil | c :: r => CCons c (cl r) end.
 Fixpoint wrap (n : nat) (c : comp) : comp := match n with O => c | S n' => CMw (wrap n' c) end.
@@ -55,16 +72,20 @@ Definition comp_of (cid mid : nat) : option comp :=
 
 (* the property, over the observation: serving returned, every goroutine is gone, no subscription
    is left in the router, both gauges are back at their previous value (0), nothing panicked; and
-   with a peer that reads, every message of the history was accepted *)
-Definition sess_ok (peer : nat) (fed returned : bool) (leak reg : nat) (gconn greq : Z) (panicked : bool) : bool :=
+   with a peer that reads (and a store that is not held busy by somebody else), every message of
+   the history was accepted *)
+Definition sess_ok (peer store : nat) (fed returned : bool) (leak reg : nat) (gconn greq : Z) (panicked : bool) : bool :=
   returned && (leak =? 0)%nat && (reg =? 0)%nat && (gconn =? 0) && (greq =? 0) && negb panicked
-  && (fed || (peer =? 1)%nat).
+  && (fed || (peer =? 1)%nat || (store =? 1)%nat).
 
 Definition run_case (c : case) : bool * bool :=
   match c with
-  | CSess cid mid hlen ending peer settle fed returned leak reg gconn greq panicked =>
-      let ok := sess_ok peer fed returned leak reg gconn greq panicked in
-      let covered := match comp_of cid mid with Some c => wf_compb c | None => false end in
+  | CSess cid mid hlen ending peer settle store fed returned leak reg gconn greq panicked =>
+      let ok := sess_ok peer store fed returned leak reg gconn greq panicked in
+      let covered := match comp_of cid mid with
+                     | Some c => wf_compb c && ((store =? 0)%nat || ((store =? 1)%nat && has_sqlite c))
+                     | None => false
+                     end in
       (* the model predicts "terminates and releases" for every covered case *)
       (covered && Bool.eqb ok true, ok)
   | CWs st ping cancelled closed panicked =>
